@@ -14,6 +14,7 @@ import Props.Defs
 import Props.C05
 import Props.C16
 import Proofs.Exact
+import Proofs.Corr
 namespace Coma.Props
 open Coma Coma.Spec
 
@@ -47,6 +48,33 @@ theorem C06_bin_centre (bin res start : Int) (hres : 1 ≤ res) :
 theorem C06_wins (rows : List Row) (r : Row) (h : bestRow rows = some r) :
     ∃ l1 l2, rows = l1 ++ r :: l2 ∧ (∀ x ∈ l1, x.confidence < r.confidence) ∧ (∀ x ∈ l2, x.confidence ≤ r.confidence) :=
   (C05_best_candidate rows).2 r h
+
+/-! ### the arithmetic of seeding (what `scipy.signal.correlate` computes exactly; `find_peaks` is runtime)
+
+`corrValid ref q` models `correlate(reference, query, mode='valid')` of two bit vectors as the exact
+integer overlap count (the harness compares it with the rounded FFT result on every run). -/
+
+/-- no lag of the correlation scores more than the number of query labels, and a lag at which
+    every query label meets a reference label attains that maximum: the true bin is a global
+    maximum of the raw correlation -/
+theorem C06_corr_peak (ref q : List Nat) (hr : Coma.Proofs.Bits ref) (hq : Coma.Proofs.Bits q) (k : Nat)
+    (hk : k + q.length ≤ ref.length) (hm : ∀ j, q.getD j 0 = 1 → ref.getD (k + j) 0 = 1) :
+    (corrValid ref q)[k]? = some (sumNat q) ∧ ∀ c ∈ corrValid ref q, c ≤ sumNat q :=
+  ⟨Coma.Proofs.corr_at_match ref q hq k hk hm, fun c hc => Coma.Proofs.corr_le_sum ref q hr c hc⟩
+
+/-- the normalised correlation (2·overlap / (window labels + query labels)) never exceeds 1 and is
+    exactly 1 at the lags where the reference window is an exact copy of the query: for an exact
+    copy the true bin reaches the largest value the normalised correlation can take -/
+theorem C06_normalised_peak (ref q : List Nat) (hr : Coma.Proofs.Bits ref) (hq : Coma.Proofs.Bits q) :
+    (∀ x ∈ normalised ref q, x.1 ≤ x.2) ∧
+    ∀ k, k + q.length ≤ ref.length → ∀ x, (normalised ref q)[k]? = some x →
+      (x.1 = x.2 ↔ (ref.drop k).take q.length = q) :=
+  ⟨fun x hx => Coma.Proofs.normalised_le_one ref q hr hq x hx,
+   fun k hk x hx => Coma.Proofs.normalised_eq_one_iff ref q hr hq k hk x hx⟩
+
+theorem C06_corr_length (ref q : List Nat) (h : q.length ≤ ref.length) :
+    (corrValid ref q).length = ref.length - q.length + 1 :=
+  Coma.Proofs.corrValid_length ref q h
 
 /-- non-vacuity: a concrete instance of the hypotheses (10 labels, window of 5, reverse strand,
     seed 200 bp off) -/
